@@ -105,6 +105,39 @@ def compare_window(acc, which, zid, z, rz, lo, hi):
         if exc_origin(w.error[2]) == "harness":
             raise w.error[2]
         acc.lib_exception("C06/%s/walk/%s" % (which, zid), w.error[2], {"file": which, "zone": zid, "instant_ns": w.error[1]})
+    # cache-order histories on fresh cached zones (period-edge transitions with the neighbouring / aliased period asked first; long intervals
+    # with an aliased earlier period asked first), judged against the reference
+    if exp and not w.error:
+        ridx2 = zw.Index(exp)
+        memo = {}
+
+        def ref_at(q):
+            if q not in memo:
+                memo[q] = exp[ridx2.at(q)] if ridx2.covers(q, q) else tzrules.expected_intervals(rz, q, q)[0]
+            return memo[q]
+
+        for anchor, kind, name, seq in zw.cache_order_histories(exp, lo, hi, full=False):
+            f = zw.fresh_cached(z)
+            if f is None:
+                acc.degrade("fresh caching wrapper not constructible (_CachedDateTimeZone._for_zone): cache-order histories skipped")
+                break
+            acc.outcome("cache-history:" + kind)
+            for i, q in enumerate(seq):
+                try:
+                    got_t = zw.iv_tuple(f.get_zone_interval(zw.mk_instant(q)))
+                except Exception as ex:  # noqa: BLE001
+                    acc.lib_exception("C06/%s/history/%s" % (which, zid), ex, {"file": which, "zone": zid, "instant_ns": q, "history": seq[:i + 1]})
+                    break
+                acc.count(evaluations=1, transitions=1)
+                want_t = ref_at(q)
+                if got_t != want_t:
+                    if not fired:
+                        fired.append(q)
+                        acc.violation("C06/%s/history/%s" % (which, zid),
+                                      "zone %s: a fresh zone object asked in turn about %s answers %s for %s; the file bytes put that instant in %s (%s at %s; %s)" % (
+                                          zid, [zw.fmt_ns(x) for x in seq[:i + 1]], zw.fmt_iv(got_t), zw.fmt_ns(q), zw.fmt_iv(want_t), kind, zw.fmt_ns(anchor), name),
+                                      {"file": which, "zone": zid, "instant_ns": q, "window": [lo, hi], "history": list(seq[:i + 1]), "got": got_t, "expected": want_t})
+                    break
     got = w.tuples
     n = min(len(got), len(exp))
     i = 0
@@ -555,7 +588,8 @@ def run(ctx):
     ctx.rule = ("states = (file, zone id, interval) triples compared with the reference; non-trivial = transitions compared (stored, seam, rule-generated) "
                 "+ ids / fixed-offset id texts examined; besides the forward walk every reference interval is queried through the provider's cached zone at "
                 "start+1ns, midpoint and end-1ns, and every 32-day cache period with two or more reference transitions once more in descending order "
-                "(period start, each transition-1ns, the probe points, period end) - all judged against the reference list, not the library's walk")
+                "(period start, each transition-1ns, the probe points, period end) - all judged against the reference list, not the library's walk; "
+                "plus cache-order histories on fresh zone objects (vf.models.zonewalk.cache_order_histories, reduced set) judged the same way")
     ctx.assumptions = ["reference decoder and rule evaluator (vf/models/nzdref.py, tzrules.py) are written from the format description and import nothing from pyoda_time",
                        "quick tier: recurring tails compared for 400 years after the tail start + one seed-positioned block of 20 years + 9997..9999; "
                        "thorough: every canonical zone of both files to the end of time; aliases: stored periods + %d tail years + 9997..9999" % ALIAS_TAIL_YEARS,
